@@ -197,6 +197,15 @@ def check_suggestions(text, rec, sugg):
     return checked, bad
 
 
+def message_of(text):
+    from mindsdb_sql import parse_sql
+    try:
+        parse_sql(text, 'mindsdb')
+        return ['accepted', '']
+    except Exception as e:
+        return [type(e).__name__, str(e)]
+
+
 def run_shard(ctx):
     from mindsdb_sql import parse_sql
     from sly.lex import LexError
@@ -204,7 +213,7 @@ def run_shard(ctx):
     acc = ctx.acc
     base = [s for (l, s) in base_statements(ctx.seed, 1500 if ctx.tier == 'quick' else 8000)]
     vocab = sqlgen.keyword_vocab(monitors.lexer_classes()['mindsdb'])
-    n = 14000 if ctx.tier == 'quick' else 600000
+    n = 30000 if ctx.tier == 'quick' else 600000
     for j in range(n):
         if not ctx.mine(j):
             continue
